@@ -24,7 +24,7 @@ RULE = ('case = a typed root (object of a schema class, pg.Dict or pg.List bound
         'rejected writes are checked for exception class and for leaving the tree '
         'unchanged. Non-trivial = at least 3 accepted and 2 rejected writes; distinct '
         'by (root kind, operation/outcome sequence).')
-REQUIRED_COUNTERS = ['schema_ok_evals', 'schema_ok_members', 'steps_ok',
+REQUIRED_COUNTERS = ['schema_ok_evals', 'schema_ok_members', 'steps_ok', 'class_default_checks',
                      'steps_rejected', 'rejected_unchanged_checks']
 ASSUMPTIONS = [
     'type checking is on (pg.enable_type_check(False) is never entered)',
@@ -131,6 +131,16 @@ def any_partial(forest):
   return any(n.allow_partial for _, _, n in H.all_nodes(forest))
 
 
+def schema_classes():
+  return [c for c in vars(M).values()
+          if isinstance(c, type) and issubclass(c, pg.Object) and c is not pg.Object
+          and c.__module__ == M.__name__]
+
+
+def setup(ctx):
+  ctx.class_defaults = SM.defaults_snapshot(schema_classes())
+
+
 def cases(ctx):
   return ctx.params['cases']
 
@@ -214,6 +224,15 @@ def run_case(ctx, i):
         break
     if H.total_size(forest) > 300:
       break
+  # Class-level state: the defaults declared by the schemas must be what they
+  # were (a default object that became a member of a tree can be written to).
+  c['class_default_checks'] += 1
+  now = SM.defaults_snapshot(schema_classes())
+  for cname, path, was, is_now in SM.defaults_changed(ctx.class_defaults, now)[:3]:
+    ctx.violation('schema-default-mutated', cname,
+                  f'default of {cname}.{path} was {was}, is now {is_now}\nhistory: {trace[-10:]}',
+                  {'root': label, 'history': trace[-12:]})
+  ctx.class_defaults = now
   if n_ok >= 3 and n_rej >= 2:
     ctx.mark_nontrivial((type(root).__name__, tuple(kinds)))
   ctx.seen('root_labels', label)
